@@ -318,7 +318,7 @@ def reset_events(view, fn):
     """-> {comp: [(bb, order, how)]} of events that empty a component of self"""
     out = {}
     order = 0
-    for ev in view.fx.events(fn):
+    for ev in view.fx.events_inl(fn):
         order += 1
         comp = ev.get("comp")
         if comp is None:
@@ -403,6 +403,27 @@ def r_reset(ctx, view, only=None):
 CAP_METHODS = ("reserve", "reserve_exact", "try_reserve", "try_reserve_exact", "shrink_to_fit")
 
 
+def result_is_used(f, local):
+    """is the value in `local` read by some statement or call (anything but being dropped)?"""
+    for b in f.blocks:
+        if b["cleanup"]:
+            continue
+        for s in b["stmts"]:
+            if s["k"] != "assign":
+                continue
+            for pl in places_of_stmt(s)[1:]:
+                if pl["local"] == local:
+                    return True
+        t = b["term"]
+        if t["k"] == "call":
+            for a in t["args"]:
+                if a["k"] in ("copy", "move") and a["place"]["local"] == local:
+                    return True
+        if t["k"] == "switch" and t["discr"]["k"] in ("copy", "move") and t["discr"]["place"]["local"] == local:
+            return True
+    return local == 0
+
+
 def r_capfwd(ctx, view):
     prog = view.prog
     ctx.cur = view
@@ -417,7 +438,7 @@ def r_capfwd(ctx, view):
                 caps.setdefault(ev["comp"], []).append(ev)
             elif ev["kind"] in ("tw", "mw", "mwraw"):
                 others.append("%s %s line %d" % (ev["kind"], ev.get("how") or ev.get("name"), ev["span"]["line"]))
-            elif ev["kind"] in ("ext", "call") and ev["name"] not in ("branch", "from_residual", "from", "into", "map_err") and ev["ci"].key not in (
+            elif ev["kind"] in ("ext", "call") and ev["name"] not in ("branch", "from_residual", "from", "into", "map_err", "map", "and_then", "and", "ok") and ev["ci"].key not in (
                     "std::ops::Try::branch", "std::ops::FromResidual::from_residual"):
                 others.append("call %s line %d" % (ev["key"], ev["span"]["line"]))
         for comp in ("map", "heap", "qp"):
@@ -464,8 +485,18 @@ def r_capfwd(ctx, view):
                 if t["k"] == "call" and "func" in t and t["func"]["name"] in ("unwrap", "expect", "panic", "panic_fmt", "unwrap_unchecked", "begin_panic"):
                     bad.append("%s line %d" % (t["func"]["key"], t["span"]["line"]))
             ctx.ob("R-CAPFWD", "Store::%s:panic-free" % name, not bad, f.loc(), "; ".join(bad) if bad else "no panicking construct; errors propagate with `?`")
-            nres = sum(1 for ev in evs if ev.get("key") == "std::ops::Try::branch")
-            ctx.ob("R-CAPFWD", "Store::%s:errors-propagate" % name, nres >= 3, f.loc(), "%d results inspected with `?`" % nres)
+            # every fallible reservation's result is consumed (by `?`, a match, map_err, or returned), never discarded
+            dropped = []
+            for comp in ("map", "heap", "qp"):
+                for e in caps.get(comp, []):
+                    if e["name"] != name:
+                        continue
+                    dest = f.term(e["bb"])["dest"]
+                    used = result_is_used(f, dest["local"]) if not dest["proj"] else True
+                    if not used:
+                        dropped.append("%s.%s" % (comp, name))
+            ctx.ob("R-CAPFWD", "Store::%s:errors-propagate" % name, not dropped, f.loc(),
+                   "every reservation result is consumed" if not dropped else "result(s) discarded: %s" % dropped)
         for Q in QUEUES:
             q = prog.fn("%s::%s" % (Q, name))
             ctx.anchor("%s::%s" % (Q, name), q is not None)
@@ -702,7 +733,9 @@ def r_expose(ctx, view, Q):
             if view.fx.call_info(f, bb).local_callee == itm + "::new":
                 callers.add(f.key)
     want_callers = {Q + "::iter_mut", "<&mut %s as IntoIterator>::into_iter" % Q}
-    ctx.ob("R-EXPOSE", "%s:IterMut::new-callers" % QNAME[Q], callers == want_callers, "", "IterMut::new is called by %s" % sorted(callers))
+    reach_ok = all((itm + "::new") in view.fx.reach(k) for k in want_callers if prog.fn(k) is not None)
+    ctx.ob("R-EXPOSE", "%s:IterMut::new-callers" % QNAME[Q], bool(callers) and callers <= want_callers and reach_ok, "",
+           "IterMut::new is called by %s (only iter_mut / `&mut` into_iter may, and both must reach it)" % sorted(callers))
 
 
 # ------------------------------------------------------------------------------------------
@@ -719,20 +752,44 @@ WRITERS_SERDE = {"<store::serde::StoreVisitor as Visitor>::visit_seq"}
 
 
 def r_writers(ctx, view):
+    """who may write the index tables: (1) functions of `store::Store` (and its trait impls / the serde visitor) - the owners;
+    (2) outside the store only the queues' own `push` and private (non-exported) functions of the queue types, and those
+    only by element writes / pushes / `size += 1` - never clearing, truncating, removing or re-assigning a table;
+    (3) no iterator type writes a table."""
     prog = view.prog
     ctx.cur = view
     got = {}
     for f in prog.fns.values():
         for ev in view.fx.events(f):
             if ev["kind"] == "tw":
-                got.setdefault(root_fn(prog, f).key, []).append("%s %s line %d" % (ev["comp"], ev["how"], ev["span"]["line"]))
-    allowed = set(WRITERS) | (WRITERS_SERDE if view.config == "serde" else set())
+                got.setdefault(root_fn(prog, f).key, []).append(ev)
+    n = 0
     for k in sorted(got):
-        ok = k in allowed
-        ctx.ob("R-WRITERS", k, ok, prog.fn(k).loc(),
-               "raw writer of heap/qp/size (%d writes)" % len(got[k]) if ok else
-               "writes the index tables directly (%s) but is not one of the primitives that own them" % "; ".join(got[k][:4]))
-    ctx.floor("R-WRITERS", len(got), 14)
+        f = prog.fn(k)
+        st = f.j.get("impl_self") or {}
+        while st.get("k") == "ref":
+            st = st["inner"]
+        owner = st.get("path", "")
+        hows = sorted({"%s %s" % (e["comp"], e["how"]) for e in got[k]})
+        n += 1
+        if owner == STORE or k.startswith(("store::", "<store::")):
+            ctx.ob("R-WRITERS", k, True, f.loc(), "a function of the Store, which owns the tables (%d raw writes)" % len(got[k]))
+            continue
+        if owner in QUEUES:
+            gentle = all(e["how"] in ("elem", "call:push") or (e["comp"] == "size" and e["how"] == "whole" and size_plus_one(e)) for e in got[k])
+            ok = (f.name == "push" or not f.exported) and gentle
+            ctx.ob("R-WRITERS", k, ok, f.loc(),
+                   "queue-internal writer (element writes / pushes only): %s" % hows if ok else
+                   "writes the index tables directly (%s) although it is %s" % (hows, "a public API other than push" if f.exported and f.name != "push" else "not limited to element writes and pushes"))
+            continue
+        ctx.ob("R-WRITERS", k, False, f.loc(), "writes the index tables (%s) but is neither a Store function nor a queue-internal sift/push" % hows)
+    ctx.floor("R-WRITERS", n, 14)
+
+
+def size_plus_one(e):
+    v = e.get("val")
+    x = v[1] if v and v[0] == "field" and v[1][0] == "binop" else v
+    return bool(x) and x[0] == "binop" and x[1].startswith("Add") and const_int(strip(x[3])) == 1
 
 
 # ------------------------------------------------------------------------------------------
@@ -758,6 +815,13 @@ def r_unsafekinds(ctx, view):
             fk = t["func"]["key"]
             if t["func"].get("unsafe"):
                 n += 1
+                callee = prog.fn(view.fx.call_info(f, bb).local_callee or "")
+                if callee is not None and not callee.exported and callee.key not in view.fx.known_functions():
+                    # a new PRIVATE unsafe helper: its body is inspected like any other (only the three kinds of unsafe
+                    # operation inside) and its safety contract is inferred and checked at every call site by R-BOUNDS
+                    ctx.ob("R-UNSAFEKINDS", "%s:bb%d:%s" % (f.key, bb, fk), True, f.loc(t["span"]),
+                           "call of the private unsafe helper %s (contract inferred and checked by R-BOUNDS)" % callee.name)
+                    continue
                 ctx.ob("R-UNSAFEKINDS", "%s:bb%d:%s" % (f.key, bb, fk), fk in UNSAFE_ALLOWED, f.loc(t["span"]),
                        "unsafe call %s" % fk + ("" if fk in UNSAFE_ALLOWED else " is not one of the three kinds of unsafe operation this crate is built from"))
             elif fk.startswith(OWNERSHIP_FORBIDDEN) or t["func"]["path"].startswith(OWNERSHIP_FORBIDDEN):
@@ -771,8 +835,8 @@ def r_unsafekinds(ctx, view):
                 for pl in places_of_stmt(s):
                     if pl["proj"] and pl["proj"][0]["k"] == "deref" and f.local_ty(pl["local"]).get("k") == "ptr":
                         ctx.ob("R-UNSAFEKINDS", "%s:raw-deref" % f.key, False, f.loc(s["span"]), "dereferences a raw pointer directly")
-        if f.j.get("unsafe") and f.key != "store::Store::get_priority_from_position":
-            ctx.ob("R-UNSAFEKINDS", "%s:unsafe-fn" % f.key, False, f.loc(), "new `unsafe fn`")
+        if f.j.get("unsafe") and f.key != "store::Store::get_priority_from_position" and (f.exported or f.key in view.fx.known_functions()):
+            ctx.ob("R-UNSAFEKINDS", "%s:unsafe-fn" % f.key, False, f.loc(), "new exported `unsafe fn`")
     ctx.floor("R-UNSAFEKINDS", n, 40)
     # table element types are Copy and have no destructor
     for T in ("store::Index", "store::Position"):
